@@ -1103,6 +1103,24 @@ class FuncGraph:
                 t = self.mk('call', (self.mk('ref', (Lib('numpy.' + name),), e), (first,), (('dtype', dt),) if dt is not None else ()), e)
                 self.event('call', t, e)
                 return t
+        if f.op == 'attr' and f.args[1] in ('append', 'insert', 'extend') and plain and not kws and f.args[0].op == 'list' and isinstance(e.func, ast.Attribute) \
+                and isinstance(e.func.value, ast.Name) and e.func.value.id in env and env[e.func.value.id] is f.args[0] \
+                and not any(x.op == 'star' for x in f.args[0].args[0]) and not self._loops:
+            # (outside loops only: a list that grows in a loop has no literal form)
+            # xs = [a, b]; xs.insert(0, c) / xs.append(c) / xs.extend([c, d]): the name denotes the longer literal list afterwards
+            items = list(f.args[0].args[0])
+            new_items = None
+            if f.args[1] == 'append' and len(args) == 1:
+                new_items = items + [args[0]]
+            elif f.args[1] == 'insert' and len(args) == 2 and args[0].op == 'const' and isinstance(args[0].args[0], int) and not isinstance(args[0].args[0], bool):
+                k = args[0].args[0]
+                k = max(0, len(items) + k) if k < 0 else min(k, len(items))
+                new_items = items[:k] + [args[1]] + items[k:]
+            elif f.args[1] == 'extend' and len(args) == 1 and args[0].op in ('list', 'tuple') and not any(x.op == 'star' for x in args[0].args[0]):
+                new_items = items + list(args[0].args[0])
+            if new_items is not None:
+                self.bind(e.func.value.id, self.mk('list', (tuple(new_items),), e), env, e)
+                return const(None, e, self.fn)
         if f.op == 'attr' and f.args[1] == 'fill' and plain and len(args) == 1 and not kws and isinstance(e.func, ast.Attribute) and isinstance(e.func.value, ast.Name) \
                 and e.func.value.id in env and env[e.func.value.id] is f.args[0]:
             # x = np.empty(shape[, dtype]); x.fill(v)   is   x = np.full(shape, v[, dtype])
